@@ -110,7 +110,10 @@ class Vfs:
 
     def _resolve(self, path: str, follow_last: bool = True, depth: int = 0) -> tuple[str, bool]:
         """-> (resolved path, exists). Physical semantics; non-existing tails are kept (non-strict)."""
+        if depth == 0:
+            self._why = None  # why the last resolution found nothing: "enoent" | "enotdir" | "eloop"
         if depth > 40:
+            self._why = "eloop"
             return path, False
         path = self._abs(path)
         parts = [p for p in path.split("/") if p and p != "."]
@@ -126,6 +129,8 @@ class Vfs:
             nxt = posixpath.join(cur, p)
             node = self.nodes.get(nxt) if exists else None
             if node is None:
+                if exists:
+                    self._why = self._why or "enoent"
                 exists = False
                 cur = nxt
                 continue
@@ -136,6 +141,7 @@ class Vfs:
                 return self._resolve(posixpath.join(base, rest) if rest else base, follow_last, depth + 1)
             if node[0] in ("f", "p") and i < len(parts):
                 exists = False
+                self._why = "enotdir"
             cur = nxt
         return cur, exists
 
@@ -170,6 +176,12 @@ class Vfs:
         p = self._abs(path)
         self._event("realpath", p)
         r, ex = self._resolve(p)
+        if strict and not ex:
+            if self._why == "enotdir":
+                raise NotADirectoryError(errno.ENOTDIR, os.strerror(errno.ENOTDIR), p)
+            if self._why == "eloop":
+                raise OSError(errno.ELOOP, os.strerror(errno.ELOOP), p)
+            raise FileNotFoundError(errno.ENOENT, os.strerror(errno.ENOENT), p)
         return r
 
     # ---- stat family (not used by the pinned tree; present so that a change that starts to stat files still runs
